@@ -590,6 +590,120 @@ func senModelTie(rep *Report, r *Rng, tier, model string) {
 		}
 		rep.Count(fmt.Sprintf("sen-model:arrays=%d read-in-domain=%d", len(arrs), ain))
 	}
+	// objects of strings: sen_object against sen.String (tight, sorted), read_object against sen.Parse
+	{
+		var objs []map[string]string
+		objs = append(objs, map[string]string{}, map[string]string{"": ""}, map[string]string{"a": "b"}, map[string]string{"a b": "c", "d": "e f"}, map[string]string{"true": "true", "k": "null"},
+			map[string]string{"é": "\xff", "a\"b": "]", "}": "{", ":": ","})
+		no := 400
+		if tier == "thorough" {
+			no = 8000
+		}
+		for i := 0; i < no; i++ {
+			m := map[string]string{}
+			for j := r.Intn(4); j > 0; j-- {
+				k := strs[r.Intn(len(strs))]
+				if !utf8.ValidString(k) {
+					continue // keys that sanitize to the same text would collide
+				}
+				m[k] = strs[r.Intn(len(strs))]
+			}
+			objs = append(objs, m)
+		}
+		reqs = reqs[:0]
+		for _, m := range objs {
+			keys := make([]string, 0, len(m))
+			for k := range m {
+				keys = append(keys, k)
+			}
+			sort.Strings(keys)
+			for h := 0; h < 2; h++ {
+				q := fmt.Sprintf("senobj\t%d\t", h)
+				for _, k := range keys {
+					q += "," + hx([]byte(k)) + "," + hx([]byte(m[k]))
+				}
+				reqs = append(reqs, q)
+			}
+		}
+		ans, err = RunModel(model, reqs)
+		if err != nil {
+			rep.Add(Disagreement{Case: "model", Kind: "harness-error", Detail: err.Error()})
+			return
+		}
+		var otexts []string
+		for i, m := range objs {
+			l := map[string]any{}
+			for k, v := range m {
+				l[k] = v
+			}
+			for h := 0; h < 2; h++ {
+				rep.Evaluations++
+				got := sen.String(l, &ojg.Options{Sort: true, HTMLUnsafe: h == 0})
+				if hx([]byte(got)) != ans[2*i+h] {
+					rep.Add(Disagreement{Case: fmt.Sprintf("%q html=%d", m, h), Where: "sen.String (object of strings, tight, sorted)", Kind: "impl-vs-model:sen-string", Impl: hx([]byte(got)), Model: ans[2*i+h]})
+				}
+				otexts = append(otexts, got)
+			}
+		}
+		otexts = append(otexts, "{a:b}", "{a: b}", "{ a:b  c:d }", "{\"a\":b}", "{\"a\" : b}", "{a:b,c:d}", "{}", "{ }", "{a:b", "{a b}", "{a:}", "{a:b c}", "{a :b}", "{'a':'b'}", "{a:[b]}")
+		reqs = reqs[:0]
+		for _, t := range otexts {
+			reqs = append(reqs, "senreadobj\t"+hx([]byte(t)))
+		}
+		ans, err = RunModel(model, reqs)
+		if err != nil {
+			rep.Add(Disagreement{Case: "model", Kind: "harness-error", Detail: err.Error()})
+			return
+		}
+		oin := 0
+		for i, t := range otexts {
+			rep.Evaluations++
+			if ans[i] == "-" || !strings.HasSuffix(ans[i], "|") {
+				continue
+			}
+			oin++
+			want := map[string]any{}
+			fs := strings.Fields(strings.TrimSuffix(ans[i], "|"))
+			dup := false
+			for j := 0; j+1 < len(fs); j += 2 {
+				kb, _ := hex.DecodeString(fs[j][1:])
+				vb, _ := hex.DecodeString(fs[j+1][1:])
+				var v any = string(vb)
+				if fs[j+1][0] == 'T' {
+					switch string(vb) {
+					case "null":
+						v = nil
+					case "true":
+						v = true
+					case "false":
+						v = false
+					}
+				}
+				if _, has := want[string(kb)]; has {
+					dup = true
+				}
+				want[string(kb)] = v
+			}
+			if dup {
+				continue
+			}
+			exp := "O " + Show(want)
+			ones := make([]int, len(t))
+			for k := range ones {
+				ones[k] = 1
+			}
+			for _, alt := range []struct{ where, got string }{
+				{"sen.Parse vs read_object", senParseOutcome([]byte(t), nil, false, false)},
+				{"sen.Parser.ParseReader 1-byte reads vs read_object", senParseOutcome([]byte(t), ones, true, false)},
+				{"sen.Tokenizer.Parse vs read_object", senTokenOutcome([]byte(t), nil, false, false)},
+			} {
+				if alt.got != exp {
+					rep.Add(Disagreement{Case: fmt.Sprintf("%q", t), Where: alt.where, Kind: "impl-vs-model:sen-read", Impl: alt.got, Model: exp})
+				}
+			}
+		}
+		rep.Count(fmt.Sprintf("sen-model:objects=%d read-in-domain=%d", len(objs), oin))
+	}
 	rep.Count(fmt.Sprintf("sen-model:read-in-domain=%d", inDomain))
 	rep.Count(fmt.Sprintf("sen-model:read-outside=%d", outDomain))
 	rep.Count(fmt.Sprintf("sen-model:read-hand-made-not-one-value=%d", partial))
